@@ -11,4 +11,47 @@ theorem tie_extract_ok : C19.extractOK = true := by decide
 
 theorem tie_maxCPU : (maxCPU : Int) = C19.maxAvailableCPUCount := by decide
 
+/-! ### elasticquota part: call structure of the functions mirrored by Model/C19Quota.lean
+(numbers: table `c19Calls` in harness/extract/facts_c19.go — 1 shouldBeIgnored, 2 getQuotaInfoByNameNoLock,
+3 IsPodExist, 4 updatePodCacheNoLock, 5 updatePodRequestNoLock, 6 IsPodTerminated, 7 CheckPodIsAssigned,
+8 updatePodIsAssignedNoLock, 9 updatePodUsedNoLock, 10 getPodIsAssignedNoLock, 11 getPodAssociateQuotaNameAndTreeID,
+12 GetGroupQuotaManagerForTree, 13 OnPodAdd, 14 OnPodUpdate, 15 OnPodDelete, 16 GetQuotaName, 17 Enabled,
+18 ElasticQuotas, 19 Get, 20 ByIndex, 21 MigratePod, 22 GetQuotaInfoByName, 23 GetPodCache, 24 GetTreeID,
+25 ReservePod, 26 UnreservePod, 27 deleteQuotaToTreeMap, 28 DeleteQuota, 29 updateQuotaToTreeMap, 30 UpdateQuota,
+31 NewGroupQuotaManager, 32 UpdateQuotaInfo, 33 ResetQuota, 34 addPodIfNotPresent, 35 removePodIfPresent) -/
+
+/-- `mgrMigrate`: read the flag of `out`, give back request (+ used), drop from `out`, RETURN if `in` holds the pod,
+    else cache in `in`, set the flag BEFORE adding request and used (used is only added for an assigned pod). -/
+theorem tie_q_migratePod : C19.qMigratePod = [10, 5, 9, 4, 2, 3, 4, 8, 5, 9] := by decide
+
+/-- `mgrPodAdd`: ignored?, QuotaInfo / already cached?, cache, request, fail-over: terminated?, assigned?, flag, used. -/
+theorem tie_q_onPodAdd : C19.qOnPodAdd = [1, 2, 3, 4, 5, 6, 7, 8, 9] := by decide
+
+theorem tie_q_onPodUpdate : C19.qOnPodUpdate =
+    [2, 1, 3, 5, 4, 5, 10, 9, 6, 8, 9, 3, 5, 7, 9, 4, 2, 3, 10, 9, 5, 4, 2, 3, 1, 4, 5, 6, 7, 8, 9] := by decide
+
+theorem tie_q_onPodDelete : C19.qOnPodDelete = [2, 3, 5, 7, 9, 4] := by decide
+theorem tie_q_reservePod : C19.qReservePod = [2, 3, 7, 8, 9] := by decide
+theorem tie_q_unreservePod : C19.qUnreservePod = [2, 3, 7, 9, 8] := by decide
+theorem tie_q_updatePodCache : C19.qUpdatePodCache = [2, 34, 35] := by decide
+
+/-- plugin glue: resolve NOW, pick the manager, call the manager-level handler; delete clears the default group too -/
+theorem tie_q_plOnPodAdd : C19.qPlOnPodAdd = [11, 12, 13] := by decide
+theorem tie_q_plOnPodUpdate : C19.qPlOnPodUpdate = [11, 11, 12, 13, 14, 15, 12, 12, 15, 13] := by decide
+theorem tie_q_plHandlePodDelete : C19.qPlHandlePodDelete = [11, 12, 15, 15] := by decide
+theorem tie_q_plResolve : C19.qPlResolve = [16, 17] := by decide
+theorem tie_q_plGetQuotaName : C19.qPlGetQuotaName = [16, 17, 19, 18, 20] := by decide
+theorem tie_q_plMigrate : C19.qPlMigrate = [17, 22, 23, 11, 12, 22, 24, 15, 13, 21] := by decide
+theorem tie_q_plReserve : C19.qPlReserve = [11, 12, 25] := by decide
+theorem tie_q_plUnreserve : C19.qPlUnreserve = [11, 12, 26] := by decide
+theorem tie_q_plOnQuotaAdd : C19.qPlOnQuotaAdd = [24, 29, 22, 30] := by decide
+theorem tie_q_plOnQuotaDelete : C19.qPlOnQuotaDelete = [27, 12, 24, 28] := by decide
+theorem tie_q_plReplaceQuotas : C19.qPlReplaceQuotas = [31, 24, 29, 32, 33, 33] := by decide
+
+/-- an unknown / absent quota name falls back to koordinator-default-quota (model: `dflt`) and nothing else -/
+theorem tie_q_fallbackIsDefault : C19.qFallbackIsDefault = true := by decide
+
+/-- the feature gates the model assumes off are off by default -/
+theorem tie_q_gatesOff : C19.qGatesOff = true := by decide
+
 end KoordVerif.C19
